@@ -227,6 +227,15 @@ def handle (op : String) (args : List String) (impl : String) : Option Verdict :
       | "0" => s!"{fixA};{fixA},{fixB},{fixC}" | "1" => s!"{fixB};{fixB},{fixC},{fixA}" | "2" => s!"{fixC};{fixB},{fixA},{fixC}"
       | _ => "BADARGS"
     some ⟨m, m == impl, "realholders"⟩
+  | "defaults", [] =>
+    -- what NewCoordinator sets; property on the implementation's values: TimeoutsOk (InitiatePeriod < CoordinatorTimeout
+    -- < TssTimeout), without which an unresponsive coordinator is never classified (coordinator_timeout_precedes_watchdog)
+    let d := defaultTimeouts
+    let m := s!"init={d.initiate};coord={d.coord};tss={d.tss}"
+    let ok := match (field impl "init").bind String.toNat?, (field impl "coord").bind String.toNat?, (field impl "tss").bind String.toNat? with
+      | some i, some c, some t => decide (TimeoutsOk ⟨i, c, t⟩)
+      | _, _, _ => false
+    some ⟨m, ok, "defaults"⟩
   | "retryable", [k] =>
     -- the real process object's answer to Retryable(): only signing is retryable (obligation gen_retryable)
     match kindOf k with
